@@ -1,4 +1,4 @@
-(* C18K — source tie BY TRANSLATION for the component layer — initializers: config validation = init_valid, constructors, and the scale formulas sqrt(6/fan) / sqrt(2/fan) and the arguments handed to tensor.RandU / RandN / Full = those of init_value; the random tensor constructors consume exactly one draw per element, in row-major order, from the position the previous constructor left (oracle Model/RandExt.v).
+(* C18K — source tie BY TRANSLATION for the component layer — initializers: config validation = init_valid, constructors, and the scale formulas sqrt(6/fan) / sqrt(2/fan) and the arguments handed to tensor.RandU / RandN / Full = those of init_value; the random tensor constructors consume exactly one draw per element, in row-major order, from the position the previous constructor left (oracle Model/RandExt.v); END TO END through package tensor (tensorInitConf and tensor.RandU/RandN/Full linked): every Init ends in the cputensor constructor with its scale arguments and gradient tracking ON.
    Statements only (proofs: Proofs/Comp*P.v).  Model/GoComp.v is REGENERATED from /repo's Go sources on every run by
    harness/gox (comp.go): the component layer's own logic — input validators, config validators, constructors, the
    scale formulas of the initializers, the Accuracy counters — as loop-free programs of the imperative language of
@@ -14,7 +14,7 @@ From Coq Require Import String List ZArith Bool Arith.
 From Qeep Require Import Model.Scalar Model.Nd Model.Fill Model.Data Model.Valid Model.Api Model.Grad Model.Backprop Model.Components Model.Consts Model.DataIR Model.HeapExt Model.CompExt.
 From Qeep Require Model.GoComp Model.GoWrap Model.DataExt Model.RandExt.
 From Qeep Require Import Proofs.DataIRP.
-From Qeep Require Proofs.CompValidP Proofs.CompAccP Proofs.CompInitP Proofs.CompInputP Proofs.CompFcP Proofs.CompTensorP Proofs.DataRandP Proofs.FillP Proofs.NdP.
+From Qeep Require Proofs.CompValidP Proofs.CompAccP Proofs.CompInitP Proofs.CompInputP Proofs.CompFcP Proofs.CompTensorP Proofs.CompInitE2EP Proofs.DataRandP Proofs.FillP Proofs.NdP.
 Import ListNotations.
 Local Open Scope string_scope.
 
@@ -508,3 +508,118 @@ Theorem consecutive_random_tensors_use_disjoint_draws :
         map (fun k : nat => sadd (smul (srnd true (pos + prodn ds1 + k)) s) m) (seq 0 (prodn ds2)))).
 Proof. exact @DataRandP.uniform_then_normal_draws. Qed.
 Print Assumptions consecutive_random_tensors_use_disjoint_draws.
+
+Theorem tensorInitConf_is_CPU_with_tracking :
+  forall (A : Type) (SA : Scalar A) (fltb fleb : A -> A -> bool)
+    (lib : string -> list dval -> heap -> option (list dval * heap)) (fuel depth : nat) 
+    (h : heap),
+  CompTensorP.outcome
+    (drun cfapp heap (cextI fltb fleb lib) GoComp.c_initializers_tensorInitConf fuel depth [] h) =
+  Some ([CompInitE2EP.initConf], h).
+Proof. exact @CompInitE2EP.tensorInitConf_run. Qed.
+Print Assumptions tensorInitConf_is_CPU_with_tracking.
+
+Theorem XavierUniform_Init_end_to_end :
+  forall (A : Type) (SA : Scalar A) (fltb fleb : A -> A -> bool)
+    (lib : string -> list dval -> heap -> option (list dval * heap)) (fuel depth : nat) 
+    (fi fo : Z) (sh : dval) (h : heap),
+  (0 <= fi + fo)%Z ->
+  let r := sqrtOver 6 (fi + fo) in
+  CompTensorP.isCall
+    (drun cfapp heap (cextI fltb fleb lib) GoComp.c_XavierUniform_Init fuel depth [DI fi; DI fo; sh] h)
+    (lib "cputensor.RandU" [sh; DF (ssub (sconst 0 0) r); DF r; DB true] h).
+Proof. exact @CompInitE2EP.XavierUniform_Init_e2e. Qed.
+Print Assumptions XavierUniform_Init_end_to_end.
+
+Theorem XavierNormal_Init_end_to_end :
+  forall (A : Type) (SA : Scalar A) (fltb fleb : A -> A -> bool)
+    (lib : string -> list dval -> heap -> option (list dval * heap)) (fuel depth : nat) 
+    (fi fo : Z) (sh : dval) (h : heap),
+  (0 <= fi + fo)%Z ->
+  CompTensorP.isCall
+    (drun cfapp heap (cextI fltb fleb lib) GoComp.c_XavierNormal_Init fuel depth [DI fi; DI fo; sh] h)
+    (lib "cputensor.RandN" [sh; DF (sconst 0 0); DF (sqrtOver 2 (fi + fo)); DB true] h).
+Proof. exact @CompInitE2EP.XavierNormal_Init_e2e. Qed.
+Print Assumptions XavierNormal_Init_end_to_end.
+
+Theorem HeUniform_Init_end_to_end :
+  forall (A : Type) (SA : Scalar A) (fltb fleb : A -> A -> bool)
+    (lib : string -> list dval -> heap -> option (list dval * heap)) (fuel depth : nat) 
+    (f : Z) (sh : dval) (h : heap),
+  (0 <= f)%Z ->
+  let r := sqrtOver 6 f in
+  CompTensorP.isCall
+    (drun cfapp heap (cextI fltb fleb lib) GoComp.c_HeUniform_Init fuel depth [DI f; sh] h)
+    (lib "cputensor.RandU" [sh; DF (ssub (sconst 0 0) r); DF r; DB true] h).
+Proof. exact @CompInitE2EP.HeUniform_Init_e2e. Qed.
+Print Assumptions HeUniform_Init_end_to_end.
+
+Theorem HeNormal_Init_end_to_end :
+  forall (A : Type) (SA : Scalar A) (fltb fleb : A -> A -> bool)
+    (lib : string -> list dval -> heap -> option (list dval * heap)) (fuel depth : nat) 
+    (f : Z) (sh : dval) (h : heap),
+  (0 <= f)%Z ->
+  CompTensorP.isCall
+    (drun cfapp heap (cextI fltb fleb lib) GoComp.c_HeNormal_Init fuel depth [DI f; sh] h)
+    (lib "cputensor.RandN" [sh; DF (sconst 0 0); DF (sqrtOver 2 f); DB true] h).
+Proof. exact @CompInitE2EP.HeNormal_Init_e2e. Qed.
+Print Assumptions HeNormal_Init_end_to_end.
+
+Theorem Uniform_Init_end_to_end :
+  forall (A : Type) (SA : Scalar A) (fltb fleb : A -> A -> bool)
+    (lib : string -> list dval -> heap -> option (list dval * heap)) (fuel depth : nat) 
+    (l u : A) (sh : dval) (h : heap),
+  CompTensorP.isCall
+    (drun cfapp heap (cextI fltb fleb lib) GoComp.c_Uniform_Init fuel depth [DF l; DF u; sh] h)
+    (lib "cputensor.RandU" [sh; DF l; DF u; DB true] h).
+Proof. exact @CompInitE2EP.Uniform_Init_e2e. Qed.
+Print Assumptions Uniform_Init_end_to_end.
+
+Theorem Normal_Init_end_to_end :
+  forall (A : Type) (SA : Scalar A) (fltb fleb : A -> A -> bool)
+    (lib : string -> list dval -> heap -> option (list dval * heap)) (fuel depth : nat) 
+    (m s : A) (sh : dval) (h : heap),
+  CompTensorP.isCall
+    (drun cfapp heap (cextI fltb fleb lib) GoComp.c_Normal_Init fuel depth [DF m; DF s; sh] h)
+    (lib "cputensor.RandN" [sh; DF m; DF s; DB true] h).
+Proof. exact @CompInitE2EP.Normal_Init_e2e. Qed.
+Print Assumptions Normal_Init_end_to_end.
+
+Theorem Full_Init_end_to_end :
+  forall (A : Type) (SA : Scalar A) (fltb fleb : A -> A -> bool)
+    (lib : string -> list dval -> heap -> option (list dval * heap)) (fuel depth : nat) 
+    (v : A) (sh : dval) (h : heap),
+  CompTensorP.isCall (drun cfapp heap (cextI fltb fleb lib) GoComp.c_Full_Init fuel depth [DF v; sh] h)
+    (lib "cputensor.Full" [sh; DF v; DB true] h).
+Proof. exact @CompInitE2EP.Full_Init_e2e. Qed.
+Print Assumptions Full_Init_end_to_end.
+
+Theorem XavierUniform_Init_never_reaches_a_panic :
+  forall (A : Type) (SA : Scalar A) (fltb fleb : A -> A -> bool)
+    (lib : string -> list dval -> heap -> option (list dval * heap)) (fuel depth : nat) 
+    (fi fo : Z) (sh : dval) (h : heap),
+  (0 <= fi + fo)%Z ->
+  drun cfapp heap (cextI fltb fleb lib) GoComp.c_XavierUniform_Init fuel depth [DI fi; DI fo; sh] h =
+  DPanic heap ->
+  let r := sqrtOver 6 (fi + fo) in
+  CompTensorP.libFails 2 (lib "cputensor.RandU" [sh; DF (ssub (sconst 0 0) r); DF r; DB true] h).
+Proof. exact @CompInitE2EP.XavierUniform_never_reaches_a_panic. Qed.
+Print Assumptions XavierUniform_Init_never_reaches_a_panic.
+
+Theorem Full_Init_never_reaches_a_panic :
+  forall (A : Type) (SA : Scalar A) (fltb fleb : A -> A -> bool)
+    (lib : string -> list dval -> heap -> option (list dval * heap)) (fuel depth : nat) 
+    (v : A) (sh : dval) (h : heap),
+  drun cfapp heap (cextI fltb fleb lib) GoComp.c_Full_Init fuel depth [DF v; sh] h = DPanic heap ->
+  CompTensorP.libFails 2 (lib "cputensor.Full" [sh; DF v; DB true] h).
+Proof. exact @CompInitE2EP.Full_never_reaches_a_panic. Qed.
+Print Assumptions Full_Init_never_reaches_a_panic.
+
+Theorem Normal_Init_never_reaches_a_panic :
+  forall (A : Type) (SA : Scalar A) (fltb fleb : A -> A -> bool)
+    (lib : string -> list dval -> heap -> option (list dval * heap)) (fuel depth : nat) 
+    (m s : A) (sh : dval) (h : heap),
+  drun cfapp heap (cextI fltb fleb lib) GoComp.c_Normal_Init fuel depth [DF m; DF s; sh] h = DPanic heap ->
+  CompTensorP.libFails 2 (lib "cputensor.RandN" [sh; DF m; DF s; DB true] h).
+Proof. exact @CompInitE2EP.Normal_never_reaches_a_panic. Qed.
+Print Assumptions Normal_Init_never_reaches_a_panic.
